@@ -36,6 +36,10 @@ import (
 // to be relayed to the destination address in its socks5 UDP header.
 type udpDestinationFilter func(dst model.AddrSpec) bool
 
+// maxPacketOverStreamSize is the size of the biggest packet that
+// PacketOverStreamTunnel can carry.
+const maxPacketOverStreamSize = 65535
+
 // udpLoopError is the only type stored in the atomic.Value that collects
 // the errors of the UDP relay goroutines. atomic.Value panics if two Store()
 // calls use different concrete types, and the goroutines can fail with
@@ -131,6 +135,14 @@ func runUDPAssociateLoop(udpConn *net.UDPConn, conn *apicommon.PacketOverStreamT
 			} else {
 				header = udpAddrToHeader(addr)
 				addrMap.Store(addr.String(), header)
+			}
+			if len(header)+n > maxPacketOverStreamSize {
+				// The packet with its header doesn't fit in one PacketOverStreamTunnel
+				// frame. Like a datagram that is too big for the path, it is dropped.
+				// Nothing is written to the tunnel, so the following packets are not affected.
+				log.Debugf("UDP associate %v dropped packet from %v: %d bytes with a %d bytes header exceed the tunnel packet size", udpConn.LocalAddr(), addr, n, len(header))
+				UDPAssociateErrors.Add(1)
+				continue
 			}
 			_, err = conn.Write(append(append([]byte(nil), header...), buf[:n]...))
 			if err != nil {
